@@ -194,6 +194,10 @@ pub fn spaces(tier: Tier) -> Vec<Space<'static>> {
             }
         }));
     }
+    {
+        let sz = std::sync::Arc::new(crate::checks::scale::sizes_heavy(tier));
+        sp.push(Space::new("size sweep: every N up to the limit x 4 families x 13 paths", sz.len() as u64, move |i, acc| crate::checks::scale::sized_paths(sz[i as usize], acc, false)));
+    }
     for ps in path_sets(tier) {
         let n = ps.paths.len() as u64;
         let (paths, docs) = (ps.paths.clone(), ps.docs.clone());
